@@ -44,6 +44,8 @@ package network
 //@   at return assert #deescalate-is-the-parent-step err == nil && action == "deescalateAction" ==> nextPriv == current && prevOf(d, current) == mapTo[1] && soundPath(d, mapTo, current, target)
 
 //@ func (*Driver).escalate [C04 C11 C12]
+//@   requires RI(d.Channel.Q) && d.Channel.PromptSearchDepth >= 0
+//@   ensures RI(d.Channel.Q)
 //@   modifies wire, rd, sent, quiet, echoed, optlog, alloc(), all(util.Queue.queue), all(util.Queue.depth)
 //@   ensures #plain-escalate-command !(level(d, target).EscalateAuth && d.AuthSecondary != "") ==> sent == old(sent) ++ strs(level(d, target).Escalate)
 //@   at call SendInteractive#1 assert #escalation-dialogue len(arg0) == 2 && arg0[0].ChannelInput == level(d, target).Escalate && arg0[0].ChannelResponse == level(d, target).EscalatePrompt && !arg0[0].HideInput && arg0[1].ChannelInput == d.AuthSecondary && arg0[1].HideInput
@@ -55,6 +57,8 @@ package network
 //@   ensures #ignored !typeis(o, "*channel.OperationOptions") ==> result == util.ErrIgnoredOption
 
 //@ func (*Driver).deescalate [C04]
+//@   requires RI(d.Channel.Q) && d.Channel.PromptSearchDepth >= 0
+//@   ensures RI(d.Channel.Q)
 //@   modifies wire, rd, sent, quiet, echoed, optlog, alloc(), all(util.Queue.queue), all(util.Queue.depth)
 //@   ensures #deescalate-command sent == old(sent) ++ strs(level(d, target).Deescalate)
 
@@ -70,27 +74,30 @@ package network
 //@   loop 1 invariant rangeindex == -1 ==> o.PrivilegeLevel == ""
 
 //@ func (*Driver).AcquirePriv [C04 C05]
+//@   requires RI(d.Channel.Q) && d.Channel.PromptSearchDepth >= 0
+//@   ensures RI(d.Channel.Q)
 //@   modifies wire, rd, sent, quiet, echoed, optlog, acquired, d.CurrentPriv, alloc(), all(util.Queue.queue), all(util.Queue.depth)
 //@   at return set acquired = (result == nil ? target : "")
 //@   ensures #unknown-target-refused-before-anything-is-sent !has(d.PrivilegeLevels, target) ==> isErr(result, util.ErrPrivilegeError) && sent == old(sent) && wire == old(wire)
 //@   ensures #success-means-level-recorded result == nil ==> d.CurrentPriv == target && acquired == target
 //@   ensures #failure-recorded result != nil ==> acquired == ""
-//@   loop 1 invariant 0 <= count && count <= 2 * len(d.PrivilegeLevels) && has(d.PrivilegeLevels, target)
+//@   loop 1 invariant 0 <= count && count <= 2 * len(d.PrivilegeLevels) && has(d.PrivilegeLevels, target) && RI(d.Channel.Q)
 //@   loop 1 decreases 2 * len(d.PrivilegeLevels) + 1 - count
 
 //@ func (*Driver).SendCommand [C04 C05]
-//@   requires d.DefaultDesiredPriv != ""
+//@   requires d.DefaultDesiredPriv != "" && RI(d.Channel.Q) && d.Channel.PromptSearchDepth >= 0
 //@   at call SendCommand#1 assert #commands-run-at-the-default-level old(d.CurrentPriv) == d.DefaultDesiredPriv || acquired == d.DefaultDesiredPriv
 //@   ensures #implicit-privilege-failure-is-a-privilege-error old(d.CurrentPriv) != d.DefaultDesiredPriv && acquired != d.DefaultDesiredPriv ==> isErr(result.1, util.ErrPrivilegeError) && result.0 == nil
 
 //@ func (*Driver).SendCommands [C04 C05]
-//@   requires d.DefaultDesiredPriv != ""
+//@   requires d.DefaultDesiredPriv != "" && RI(d.Channel.Q) && d.Channel.PromptSearchDepth >= 0
 //@   at call SendCommands#1 assert #commands-run-at-the-default-level old(d.CurrentPriv) == d.DefaultDesiredPriv || acquired == d.DefaultDesiredPriv
 //@   ensures #implicit-privilege-failure-is-a-privilege-error old(d.CurrentPriv) != d.DefaultDesiredPriv && acquired != d.DefaultDesiredPriv ==> isErr(result.1, util.ErrPrivilegeError) && result.0 == nil
 
 //@ func (*Driver).SendCommandsFromFile [C04]
-//@   requires d.DefaultDesiredPriv != ""
+//@   requires d.DefaultDesiredPriv != "" && RI(d.Channel.Q) && d.Channel.PromptSearchDepth >= 0
 //@   at call SendCommandsFromFile#1 assert #commands-run-at-the-default-level old(d.CurrentPriv) == d.DefaultDesiredPriv || acquired == d.DefaultDesiredPriv
 
 //@ func (*Driver).SendConfigs [C04]
+//@   requires RI(d.Channel.Q) && d.Channel.PromptSearchDepth >= 0
 //@   at call SendCommands#1 assert #configs-run-at-the-configuration-or-requested-level acquired == (op.PrivilegeLevel != "" ? op.PrivilegeLevel : "configuration")
